@@ -240,4 +240,48 @@ def judgeOapiCsv : P Verdict := do
   pure { prop := ok, corr := ok, bit := none,
          msg := if ok then "" else s!"file: CSV body (usable={usable}) answered {st}" }
 
+/-- `C19 pipeline <recs lt> pt <0|1> [recs] <alpha> | ok nOut (hexname bits)* nResp (i bits)* / err / panic`:
+    the CLI against the real server on loopback.  Every response entry must come back under the name
+    that first appeared at that index, with a decimal that re-parses to the identical float64, and the
+    scores must be the reference EigenTrust scores of the CSV inputs. -/
+def judgePipeline : P Verdict := do
+  let ltR ← recordsP
+  expect "pt"
+  let hasPT ← flag
+  let ptR ← (if hasPT then do let r ← recordsP; pure (some r) else pure none)
+  let alpha : Float ← scalar
+  expect "|"
+  let st ← tok
+  if st != "ok" then
+    set ([] : List String)
+    return { prop := false, corr := false, msg := s!"pipeline {st}" }
+  let nOut ← nat
+  let out ← rep nOut (do let nm := unhex (← tok); let v : Float ← scalar; pure (nm, v))
+  let nResp ← nat
+  let resp ← rep nResp (do let i ← nat; let v : Float ← scalar; pure (i, v))
+  match cliBuildRequest false true ltR ptR none with
+  | none => pure { prop := false, corr := false, msg := "model refuses the files" }
+  | some m =>
+    let tbl := m.peerIds
+    -- index -> name, identical bits
+    let mapped := out.length == resp.length &&
+      (out.zip resp).all fun ((nm, v), (i, rv)) => tbl[i]? == some nm && floatShow v == floatShow rv
+    let modelOut := cliOutput false tbl (resp.map fun (i, v) => ((i : Int), v))
+    let corr := match modelOut with
+      | some mo => mo.length == out.length && (mo.zip out).all fun ((a, x), (b, y)) => a == b && floatShow x == floatShow y
+      | none => false
+    -- reference scores
+    let req : Oapi.ComputeReq Float :=
+      { localTrust := .inline m.localTrust, preTrust := m.preTrust.map (.inline ·), alpha := some alpha }
+    let scoresOK := match docScores { stats := false, req := req, pre := none } with
+      | none => true
+      | some (ds, nn, a, e) =>
+        let got : Array Rat := ((List.range nn).map fun i =>
+          match resp.find? (·.1 == i) with | some (_, v) => f2q! v | none => 0).toArray
+        let bound := 2 * ((1 - a) / a * sqrtUp nn * e + (1 / 100000000000000 : Rat) / a) + (nn : Rat) * 64 * uRound
+        l1Dist nn got ds ≤ bound
+    let p := mapped && scoresOK
+    pure { prop := p, corr := corr, bit := some corr,
+           msg := if p && corr then "" else s!"mapped={mapped} scores={scoresOK} table={tbl}" }
+
 end EtVerif.Driver
